@@ -40,6 +40,14 @@ func (s *RedundantScope) checkLine(mklines *MkLines, mkline *MkLine) {
 	switch {
 	case mkline.IsVarassign():
 		s.handleVarassign(mkline, mklines.indentation)
+
+	case mkline.IsDirective() && mkline.Directive() == "undef":
+		// The assignments before and after an .undef do not belong
+		// together, and other variables may still refer to this one.
+		// Therefore nothing is said about the variable from here on.
+		for _, varname := range mkline.ValueFields(mkline.Args()) {
+			s.get(varname).vari.undef()
+		}
 	}
 
 	s.handleExpr(mkline)
